@@ -24,6 +24,8 @@ Counter p_append_full("probe.append_on_full");
 Counter p_erase_mid("probe.erase_in_the_middle");
 Counter p_erase_foreign("probe.erase_position_of_another_container");
 Counter p_no_args("probe.emplace_back_without_arguments");
+Counter p_append_self_rvalue("probe.append_rvalue_of_own_element");
+Counter p_append_self_rvalue_full("probe.append_rvalue_of_own_element_refused");
 Counter p_emplace_mid("probe.emplace_before_existing");
 Counter p_pop_empty("probe.pop_on_empty");
 Counter p_at_eq_size("probe.checked_access_at_size");
@@ -933,6 +935,7 @@ struct Exec
                 break;
             }
             int v = static_cast<int>(((op.a[1] % NVAL) + NVAL) % NVAL);
+            long selfsrc = -1;
             must_raise = sl.m.seq.size() >= sl.m.cap;
             if (must_raise)
                 p_append_full++;
@@ -967,7 +970,18 @@ struct Exec
                         v = DEFAULTED;
                     }
                 }
-                if (!two && !none)
+                if (!two && !none && (op.a[2] & 4) != 0 && !sl.m.seq.empty())
+                {
+                    // the argument is an rvalue of one of the container's own elements: a refused
+                    // append must not have consumed it, an accepted one leaves a moved-from element
+                    selfsrc = static_cast<long>(static_cast<size_t>(op.a[2] >> 3) % sl.m.seq.size());
+                    v = sl.m.seq[static_cast<size_t>(selfsrc)];
+                    p_append_self_rvalue++;
+                    if (must_raise)
+                        p_append_self_rvalue_full++;
+                    res = guarded([&] { ret = sl.p->emplace_back(std::move((*sl.p)[static_cast<size_t>(selfsrc)])); });
+                }
+                else if (!two && !none)
                     res = guarded([&] { ret = sl.p->emplace_back(v); });
                 if (res == RS_OK && ret != sl.m.seq.size() && !must_raise)
                     fail("C07/contents", op, opi, presize, precap, "emplace_back returned wrong index");
@@ -977,7 +991,17 @@ struct Exec
                 NoFault nf0;
                 T tmp(v);
                 size_t ret = 0;
-                res = guarded([&] { ret = sl.p->insert(std::move(tmp)); });
+                if ((op.a[2] & 4) != 0 && !sl.m.seq.empty())
+                {
+                    selfsrc = static_cast<long>(static_cast<size_t>(op.a[2] >> 3) % sl.m.seq.size());
+                    v = sl.m.seq[static_cast<size_t>(selfsrc)];
+                    p_append_self_rvalue++;
+                    if (must_raise)
+                        p_append_self_rvalue_full++;
+                    res = guarded([&] { ret = sl.p->insert(std::move((*sl.p)[static_cast<size_t>(selfsrc)])); });
+                }
+                else
+                    res = guarded([&] { ret = sl.p->insert(std::move(tmp)); });
                 if (res == RS_OK && !must_raise && ret != sl.m.seq.size())
                     fail("C07/contents", op, opi, presize, precap, "insert(T&&) returned wrong index");
             }
@@ -1012,8 +1036,21 @@ struct Exec
                         fail("C07/contents", op, opi, presize, precap, "push_back(const T&) returned wrong index");
                 }
             }
+            // an injected throw after the caller's rvalue (its own element) was consumed into the
+            // temporary: the element was handed over by the caller, so only the basic guarantee is
+            // demanded for it; a *refusal* (container full) must still leave everything untouched
+            if (selfsrc >= 0 && !must_raise && res != RS_OK && f.fired)
+                resync = true;
             if (!must_raise)
+            {
                 expect.seq.push_back(v);
+                if (selfsrc >= 0 && res == RS_OK)
+                {
+                    NoFault nf1;
+                    if ((*sl.p)[static_cast<size_t>(selfsrc)].origin == O_MOVED)
+                        expect.seq[static_cast<size_t>(selfsrc)] = HUSK;
+                }
+            }
             break;
         }
         case K_PUSH_BACK_RANGE:
@@ -1764,7 +1801,7 @@ public:
             case K_INSERT_LVALUE:
             case K_PUSH_BACK:
                 op.a[1] = static_cast<int64_t>(rng.below(NVAL));
-                op.a[2] = rng.chance(1, 5) ? 1 : rng.chance(1, 6) ? 2 : 0;
+                op.a[2] = rng.chance(1, 5) ? 1 : rng.chance(1, 6) ? 2 : rng.chance(1, 5) ? 4 + 8 * static_cast<int64_t>(rng.below(MAXCAP)) : 0;
                 if (t.size < t.cap)
                     t.size++;
                 break;
